@@ -16,7 +16,7 @@
    equals RFC 9106's B[i][j] recurrence; the model of that loop mirrors src/argon2.rs, reproduces
    both RFC 9106 test vectors by computation (below) and is run against the crate and libsodium
    by the check. *)
-From Dryoc Require Import Spec.Argon2 Impl.Argon2 Gen.Kernels Refine.Argon2 Refine.Argon2Safe Refine.Argon2Gen.
+From Dryoc Require Import Spec.Argon2 Impl.Argon2 Gen.Kernels Refine.Argon2 Refine.Argon2Safe Refine.Argon2G Refine.Argon2Gen.
 Import Argon2Impl.
 Open Scope Z_scope.
 
@@ -98,6 +98,14 @@ Theorem C09_loop_is_its_trace : forall n I pass lane slice dia i curr prev,
   memory (seg_loop n I pass lane slice dia i curr prev) =
   fold_left (apply_entry (lane_length I) (negb (pass =? 0))) (seg_loop_trace n I pass lane slice dia i curr prev) (memory I).
 Proof. exact seg_loop_follows_trace. Qed.
+
+(* fill_block is RFC 9106's compression function: P (built from GB) on the eight rows and then the eight
+   columns of the 8 x 8 matrix of 16-byte registers of X xor Y, xor-ed back; the old block is xor-ed in
+   after the first pass *)
+Theorem C09_compression_is_G : forall prev_block ref_block next_block with_xor, blk prev_block -> blk ref_block ->
+  fill_block prev_block ref_block next_block with_xor =
+  if with_xor then Argon2Spec.xorb (Argon2Spec.G prev_block ref_block) next_block else Argon2Spec.G prev_block ref_block.
+Proof. exact fill_block_is_G. Qed.
 
 Theorem C09_permutation_from_source : forall (prev_block ref_block next_block : block) (with_xor : bool),
   (let block_r := xor_block ref_block prev_block in
